@@ -469,6 +469,12 @@ class C22(AMachine):
             cp = rng.choice([rng.randint(1, 6), rng.randint(1, 25)])
             acts.append([cp, "bp_add", ["L", rng.randrange(16)] if rng.random() < 0.5 else rng.randrange(200), rng.randrange(3)])
             acts.append([cp, "hw", "tail", 0, [rng.getrandbits(8)]])
+        if rng.random() < 0.4:
+            # two host writes at one control point, the first one outside the translated code (data, as a host
+            # pushing arguments would), the second one into a cell: both are pending when the jitter next looks
+            cp = self._cp(rng)
+            acts.append([cp, "hw", "data", rng.randrange(64), [rng.getrandbits(8) for _ in range(rng.randint(1, 4))]])
+            acts.append([cp, "hw", "code", rng.randrange(64), [rng.getrandbits(8)]])
         # host writes followed at once by another host action at the same control point
         for a in list(acts):
             if a[1] == "hw" and rng.random() < 0.5:
